@@ -107,6 +107,9 @@ def harness(ctx, C, p):
     if kind == "struct":
         ml = p["members"]
         eager, lazy = mk(C, _struct_src("Struct", ml)), mk(C, _struct_src("LazyStruct", ml))
+        # the same LazyStruct object has parsed another message before, under another context size
+        api.outcome(lazy.parse, bytes((i * 29 + 1) & 0x7F for i in range(p["n"] + 4)), n=2)
+        api.outcome(lazy.parse, bytes(p["n"]), n=1)
         se, sl = ctx.stream(data), ctx.stream(data)
         re_, rl = api.outcome(eager.parse_stream, se, n=kwn), api.outcome(lazy.parse_stream, sl, n=kwn)
         if not re_.ok:
